@@ -162,7 +162,8 @@ class Block:
 
     def __init__(self, fn, reserved=()):
         self.fn = fn
-        self.names = {n.id for n in ast.walk(fn) if isinstance(n, ast.Name)} | {a.arg for a in fn.args.args}
+        # (annotations of the signature are not part of the body: `string: str` does not make `str` a local name)
+        self.names = {n.id for st in fn.body for n in ast.walk(st) if isinstance(n, ast.Name)} | {a.arg for a in fn.args.args}
         bad = sorted(n for n in self.names if n in COQ_KEYWORDS or n in reserved or not re.fullmatch(r"[A-Za-z_][A-Za-z0-9_]*", n))
         if bad:
             raise Reject("%s: names that clash with the Coq side: %s" % (fn.name, bad))
